@@ -343,6 +343,46 @@ func c19Proto(c *Ctx, infos []mappingInfo) {
 		}
 	}
 	c.R.check(okDef, rule, "proto/FromProto/unknown-kind", shortFn(from), c.fpos(from), "an unknown interpolation returns (nil, error)", fmt.Sprintf("%d default path(s)", len(arms["default"])))
+	// the nil message: refused, and never looked into — every path that consults a field of the message has
+	// established m != nil, every path that has established m == nil returns (nil, error)
+	{
+		bad := ""
+		nNil := 0
+		for _, p := range fpaths {
+			ev := 0
+			evSeq := 0
+			for _, cd := range p.Conds {
+				if x, neq, ok := nilTest(cd.Term); ok && x.isParam(0) {
+					evSeq = cd.Seq
+					if neq == cd.Taken {
+						ev = -1
+					} else {
+						ev = 1
+					}
+				}
+			}
+			if ev == 1 {
+				nNil++
+				if !(p.RetNil(1) == -1 && p.RetT[0].Op == "nil") {
+					bad = "a nil message is answered with " + describeRet(p)
+				}
+				continue
+			}
+			for _, cd := range p.Conds {
+				reads := false
+				cd.Term.walk(func(x *Term) bool {
+					if x.Op == "field" && len(x.Args) == 1 && x.Args[0].isParam(0) {
+						reads = true
+					}
+					return true
+				})
+				if reads && !(ev == -1 && evSeq < cd.Seq) {
+					bad = "a field of the message is consulted before m != nil is established: [" + p.String() + "]"
+				}
+			}
+		}
+		c.R.check(bad == "" && nNil > 0, rule, "proto/FromProto/nil-message", shortFn(from), c.fpos(from), "m == nil returns (nil, error); fields of m are read only after m != nil", firstNonEmpty(bad, fmt.Sprintf("%d nil path(s)", nNil)))
+	}
 }
 
 func c19Ctors(c *Ctx, infos []mappingInfo) {
